@@ -1072,7 +1072,11 @@ SAME_SIZE_PAIRS = [("NIST256p", "BRAINPOOLP256r1"), ("NIST256p", "SECP256k1"), (
                    ("SECP112r1", "SECP112r2"), ("NIST192p", "BRAINPOOLP192r1"), ("NIST224p", "BRAINPOOLP224r1"),
                    ("NIST384p", "BRAINPOOLP384r1"), ("SECP160r1", "BRAINPOOLP160r1"), ("NIST256p", "NIST384p")]
 SEQ_SYMS = ["setA", "setB", "privA", "privB", "gen", "pubA", "pubB"]
+# the extended alphabet: a second key pair per curve, and "sec" = ask for the shared secret in the
+# middle of the sequence (the object is long-lived and re-used for several peers)
+SEQ_SYMS_X = SEQ_SYMS + ["privA2", "pubA2", "pubB2", "sec"]
 FORMS = ["obj", "bytes", "der", "pem"]
+FORMS_X = FORMS + ["attr"]        # attr: direct assignment of .private_key / .public_key
 
 
 class SeqKeys(object):
@@ -1090,6 +1094,14 @@ class SeqKeys(object):
         self.vk_bytes, self.vk_der, self.vk_pem = self.vk.to_string(), self.vk.to_der(), self.vk.to_pem()
 
 
+def _kname(sym):
+    return sym[4:] if sym.startswith("priv") else sym[3:]
+
+
+def _curve_keys(K, name):
+    return K["A"] if K["A"].c.name == name else K["B"]
+
+
 def ref_step(st, sym, form, K):
     """reference semantics of one operation.  st = dict(curve, priv, pub) with curve a name or
     None, priv = (curve name, d) or None, pub = (curve name, (x, y)) or None.
@@ -1102,12 +1114,18 @@ def ref_step(st, sym, form, K):
             return "NoCurveError"
         st["priv"] = (st["curve"], None)          # secret read back from the object
         return "ok"
-    k = K[sym[-1]]
+    k = K[_kname(sym)]
+    if form == "attr":                       # plain attribute assignment: nothing is checked here
+        if sym.startswith("priv"):
+            st["priv"] = (k.c.name, k.d)
+        else:
+            st["pub"] = (k.c.name, k.Q)
+        return "ok"
     if sym.startswith("priv"):
         if form == "bytes":
             if st["curve"] is None:
                 return "NoCurveError"
-            tgt = K["A"] if K["A"].c.name == st["curve"] else K["B"]
+            tgt = _curve_keys(K, st["curve"])
             if len(k.sk_bytes) != len(tgt.sk_bytes) or not (1 <= k.d < tgt.n):
                 return "reject"
             st["priv"] = (st["curve"], k.d)
@@ -1122,7 +1140,7 @@ def ref_step(st, sym, form, K):
     if form == "bytes":
         if st["curve"] is None:
             return "reject"
-        tgt = K["A"] if K["A"].c.name == st["curve"] else K["B"]
+        tgt = _curve_keys(K, st["curve"])
         x, y = k.Q
         if len(k.vk_bytes) != len(tgt.vk_bytes) or not (x < tgt.p and y < tgt.p) or \
                 (y * y - (x * x * x + tgt.a * x + tgt.b)) % tgt.p != 0:
@@ -1142,7 +1160,7 @@ def ref_secret(st, K):
         return "NoKeyError"
     if not (st["priv"][0] == st["curve"] == st["pub"][0]):
         return "InvalidCurveError"
-    k = K["A"] if K["A"].c.name == st["curve"] else K["B"]
+    k = _curve_keys(K, st["curve"])
     S = a_mul(st["priv"][1], st["pub"][1], k.p, k.a)
     if S is None:
         return "InvalidSharedSecretError"
@@ -1155,11 +1173,17 @@ def impl_step(e, sym, form, K):
     elif sym == "gen":
         e.generate_private_key()
     elif sym.startswith("priv"):
-        k = K[sym[-1]]
+        k = K[_kname(sym)]
+        if form == "attr":
+            e.private_key = k.sk
+            return
         {"obj": lambda: e.load_private_key(k.sk), "bytes": lambda: e.load_private_key_bytes(k.sk_bytes),
          "der": lambda: e.load_private_key_der(k.sk_der), "pem": lambda: e.load_private_key_pem(k.sk_pem)}[form]()
     else:
-        k = K[sym[-1]]
+        k = K[_kname(sym)]
+        if form == "attr":
+            e.public_key = k.vk
+            return
         {"obj": lambda: e.load_received_public_key(k.vk), "bytes": lambda: e.load_received_public_key_bytes(k.vk_bytes),
          "der": lambda: e.load_received_public_key_der(k.vk_der), "pem": lambda: e.load_received_public_key_pem(k.vk_pem)}[form]()
 
@@ -1179,6 +1203,25 @@ def run_ecdh_sequence(ctx, K, ctor, seq, data):
     e = ecdh.ECDH(curve=None if ctor is None else K[ctor].c)
     trace = []
     for (sym, form) in seq:
+        if sym == "sec":                     # the object is asked for a secret and then used further
+            want = ref_secret(st, K)
+            try:
+                kick()
+                got = e.generate_sharedsecret_bytes() if form != "int" else e.generate_sharedsecret()
+            except Exception as ex:          # noqa
+                got = type(ex).__name__
+            if form == "int" and isinstance(got, int) and isinstance(want, bytes):
+                got = int(got).to_bytes(len(want), "big")
+            trace.append("sec:%s" % (got.hex()[:16] if isinstance(got, bytes) else got))
+            ctx.evaluations += 1
+            if got != want:
+                _fail(ctx, "ecdh-sequence-secret", dict(data, step=len(trace) - 1),
+                      "state curve=%s private=%s public=%s: expected %s, implementation: %s (trace %s)" % (
+                          st["curve"], st["priv"] and st["priv"][0], st["pub"] and st["pub"][0],
+                          want.hex() if isinstance(want, bytes) else want, got.hex() if isinstance(got, bytes) else got,
+                          " ".join(trace)))
+                return False
+            continue
         want = ref_step(st, sym, form, K)
         try:
             kick()
@@ -1211,11 +1254,88 @@ def run_ecdh_sequence(ctx, K, ctor, seq, data):
     return True
 
 
+
+def ecdh_reuse_search(ctx, K, pair, full):
+    """one long-lived ECDH object used for several peers: load peer 1, agree, load peer 2 in every way (also by plain
+    attribute assignment), agree again, switch the private key in between, then offer a key of another curve and an
+    invalid point.  Every secret must equal the independent computation AND what the peer computes with a fresh object."""
+    ecdh, keys_mod = lib()[4], lib()[3]
+    r = ctx.rng
+    pubs = ["pubA", "pubA2"]
+    scen = []
+    for f1 in FORMS_X:
+        for f2 in FORMS_X:
+            for (p1, p2) in (("pubA", "pubA2"), ("pubA2", "pubA")):
+                base = [("privA", "obj"), (p1, f1), ("sec", "obj"), (p2, f2), ("sec", "obj")]
+                scen.append(base)
+                scen.append(base + [("privA2", r.choice(FORMS_X)), ("sec", "int"), (p1, f1), ("sec", "obj")])
+                scen.append(base + [("pubB", "attr"), ("sec", "obj"), (p1, r.choice(FORMS)), ("sec", "obj")])
+                scen.append(base + [("pubB", r.choice(FORMS)), ("sec", "obj"), ("privB", "attr"), ("sec", "obj")])
+                scen.append([("privA", f1 if f1 != "attr" else "obj"), (p1, "obj"), ("sec", "int"), ("sec", "obj"),
+                             ("privA2", f2), ("sec", "obj"), (p2, "obj"), ("sec", "int")])
+    if not full:
+        scen = scen[:10] + r.sample(scen[10:], 60)
+    for ctor in ((None, "A") if full else ("A",)):
+        for seq in scen:
+            data = {"op": "ecdh-seq", "pair": list(pair), "keys": {k: v.d for k, v in K.items()}, "ctor": ctor,
+                    "seq": [list(x) for x in seq]}
+            run_ecdh_sequence(ctx, K, ctor, seq, data)
+            ctx.case(("ecdh-reuse", pair[0], ctor, tuple(seq)))
+    # both parties, the peers use fresh objects; then an off-curve point is offered and must not change anything
+    A, A2 = K["A"], K["A2"]
+    L = (A.p.bit_length() + 7) // 8
+    me = ecdh.ECDH(A.c)
+    me.load_private_key(A.sk)
+    for rnd in range(6 if full else 3):
+        peer = SeqKeys(A.c, r.randrange(2, A.n))
+        form = FORMS_X[rnd % len(FORMS_X)]
+        try:
+            kick()
+            if form == "attr":
+                me.public_key = peer.vk
+            else:
+                impl_step(me, "pubP", form, {"P": peer})
+            mine = me.generate_sharedsecret_bytes()
+            other = ecdh.ECDH(A.c, peer.sk, A.vk).generate_sharedsecret_bytes()
+            got = (mine, other)
+        except Exception as ex:          # noqa
+            got = "exception %r" % (ex,)
+        S = a_mul(A.d * peer.d % A.n, A.G, A.p, A.a)[0].to_bytes(L, "big")
+        ctx.evaluations += 1
+        if got != (S, S):
+            _fail(ctx, "ecdh-reuse-parties", {"op": "ecdh-reuse", "curve": A.c.name, "d": A.d, "peer": peer.d, "round": rnd,
+                                             "form": form},
+                  "round %d (peer loaded as %s): re-used object %s, peer %s, independent %s" % (
+                      rnd, form, got[0].hex() if isinstance(got, tuple) else got,
+                      got[1].hex() if isinstance(got, tuple) else "", S.hex()))
+            break
+        # an invalid point: must be rejected, and the object keeps agreeing with the last peer
+        bad = peer.Q[0].to_bytes(L, "big") + ((peer.Q[1] + 1) % A.p).to_bytes(L, "big")
+        if not rejected(me.load_received_public_key_bytes, bad):
+            _fail(ctx, "invalid-point-accepted", {"op": "ecdh-reuse", "curve": A.c.name, "d": A.d, "peer": peer.d,
+                                                  "round": rnd, "form": "bad"}, "off-curve point accepted by a used ECDH object")
+            break
+        me.public_key = K["B"].vk          # a key of another curve put into the object
+        try:
+            kick()
+            res = me.generate_sharedsecret_bytes()
+            res = res.hex()
+        except Exception as ex:          # noqa
+            res = type(ex).__name__
+        if res != "InvalidCurveError":
+            _fail(ctx, "ecdh-reuse-parties", {"op": "ecdh-reuse", "curve": A.c.name, "d": A.d, "peer": peer.d, "round": rnd,
+                                             "form": "other-curve"},
+                  "after a successful agreement a public key of %s was assigned: expected InvalidCurveError, got %s" % (
+                      K["B"].c.name, res))
+            break
+
+
 def seq_keys(ctx, pair):
     curves = lib()[1]
     A, B = getattr(curves, pair[0]), getattr(curves, pair[1])
     lim = min(int(A.order), int(B.order))
-    return {"A": SeqKeys(A, ctx.rng.randrange(2, lim)), "B": SeqKeys(B, ctx.rng.randrange(2, lim))}
+    return {"A": SeqKeys(A, ctx.rng.randrange(2, lim)), "B": SeqKeys(B, ctx.rng.randrange(2, lim)),
+            "A2": SeqKeys(A, ctx.rng.randrange(2, lim)), "B2": SeqKeys(B, ctx.rng.randrange(2, lim))}
 
 
 def ecdh_sequence_search(ctx, full):
@@ -1233,15 +1353,29 @@ def ecdh_sequence_search(ctx, full):
             for ln in range(0, maxlen + 1):
                 for syms in itertools.product(SEQ_SYMS, repeat=ln):
                     seq = [(s, "obj") for s in syms]
-                    data = {"op": "ecdh-seq", "pair": list(pair), "dA": da, "dB": db, "ctor": ctor,
+                    data = {"op": "ecdh-seq", "pair": list(pair), "keys": {k: v.d for k, v in K.items()}, "ctor": ctor,
                             "seq": [list(x) for x in seq]}
                     run_ecdh_sequence(ctx, K, ctor, seq, data)
         ctx.nontrivial.add(("ecdh-seq-enum", pair, maxlen))
-        # random longer sequences with random encodings (bytes / DER / PEM)
+        # every sequence up to length 2 over the extended alphabet (second key pair, attribute assignment, secret
+        # in the middle), then the re-use scenarios, then random longer sequences with random encodings
+        for ctor in (None, "A"):
+            for ln in (1, 2):
+                for syms in itertools.product(SEQ_SYMS_X, repeat=ln):
+                    for form in ("obj", "attr"):
+                        seq = [(sy, "obj" if sy in ("setA", "setB", "gen", "sec") else form) for sy in syms]
+                        data = {"op": "ecdh-seq", "pair": list(pair), "keys": {k: v.d for k, v in K.items()}, "ctor": ctor,
+                                "seq": [list(x) for x in seq]}
+                        run_ecdh_sequence(ctx, K, ctor, seq, data)
+        ecdh_reuse_search(ctx, K, pair, full)
         for _ in range(ctx.budget(60, 400) if not ctx.brokens else 400):
             ctor = r.choice([None, "A", "B"])
-            seq = [(r.choice(SEQ_SYMS), r.choice(FORMS)) for _ in range(r.randrange(2, 7))]
-            data = {"op": "ecdh-seq", "pair": list(pair), "dA": da, "dB": db, "ctor": ctor, "seq": [list(x) for x in seq]}
+            seq = []
+            for _ in range(r.randrange(2, 9)):
+                sy = r.choice(SEQ_SYMS_X)
+                seq.append((sy, r.choice(["obj", "int"]) if sy == "sec" else r.choice(FORMS_X)))
+            data = {"op": "ecdh-seq", "pair": list(pair), "keys": {k: v.d for k, v in K.items()}, "ctor": ctor,
+                    "seq": [list(x) for x in seq]}
             run_ecdh_sequence(ctx, K, ctor, seq, data)
             ctx.case(("ecdh-seq", pair, ctor, tuple(seq)))
         ctx.dist["ecdh-seq-pair"] += 1
@@ -1519,7 +1653,7 @@ def replay(ctx, data):
                         self.fails.append(detail)
                 cc = _C()
                 curves_mod = lib()[1]
-                K = {"A": SeqKeys(getattr(curves_mod, d["pair"][0]), d["dA"]), "B": SeqKeys(getattr(curves_mod, d["pair"][1]), d["dB"])}
+                K = {k: SeqKeys(getattr(curves_mod, d["pair"][0 if k.startswith("A") else 1]), v) for k, v in d["keys"].items()}
                 signal.signal(signal.SIGVTALRM, _on_alarm)
                 try:
                     ok = run_ecdh_sequence(cc, K, d["ctor"], [tuple(x) for x in d["seq"]], {})
